@@ -730,6 +730,17 @@ func init() {
 				d.embedObserve(rec, f, "raw", d.blobOfLen(5), crypto.SHA256, true, false, "out-raw")
 			}
 		}
+		//  (c) lfanew < 64: DigestPE reads the NT headers sequentially at offset 64, VerifyPE seeks to lfanew
+		for _, sh := range []bool{false, true} {
+			for _, lf := range []int{16, 48} {
+				s := &peSpec{Plus: false, Lfanew: lf, PEAt64: true, Shadow: sh, Machine: 0x14c, OptSize: 224, NumRva: 16, FileAlign: 8, Secs: []secSpec{{Size: 16}}, Overlay: 96}
+				f, lay := buildPE(d.r, s)
+				rec := d.observe(f, "lfanew-lt64", fmt.Sprintf("lfanew=%d shadow=%v", lf, sh), s, lay, -1)
+				if rec.Dig.Cls == 0 {
+					d.embedObserve(rec, f, "signed", nil, crypto.SHA256, true, false, "out-signed")
+				}
+			}
+		}
 		return nil
 	})
 
